@@ -106,7 +106,8 @@ struct Exec
     }
 
     // run one container call (never a clock op)
-    Outcome exec(bx::IBox& box, const Op& o, int idx) const
+    // `value_override`: the value an `ins` writes (same-value writes), otherwise value_for(key, idx, 0)
+    Outcome exec(bx::IBox& box, const Op& o, int idx, const uint64_t* value_override = nullptr) const
     {
         Outcome r;
         if (!supported(o))
@@ -117,7 +118,7 @@ struct Exec
         const bool peek = caps.has_peek ? o.peek : false;
         switch (o.code)
         {
-            case cs::O_INS: r.b = box.insert(o.k, value_for(o.k, idx, 0), o.allow, o.ttl_ms); break;
+            case cs::O_INS: r.b = box.insert(o.k, value_override ? *value_override : value_for(o.k, idx, 0), o.allow, o.ttl_ms); break;
             case cs::O_INSR:
             {
                 std::vector<bx::KV> kv;
